@@ -44,7 +44,7 @@ def Handled (T : Torrent) (a : Nat) (m : MState) (cmds : List Cmd) (rep : Rep) (
   | [.recvInterested] => mstep m (.interested a) = .ok m' .none
   | [.recvUnchoke] => ∃ chosen r, mstep m (.unchoke a chosen) = .ok m' r ∧ rep = repOf T r
   | [.recvNotInterested] => ∃ chosen r, mstep m (.notInterested a chosen) = .ok m' r ∧ rep = repOf T r
-  | [.recvHave i] => ∃ r, mstep m (.have a i) = .ok m' r ∧ rep = repOf T r
+  | [.recvHave i] => ∃ chosen r, mstep m (.have a i chosen) = .ok m' r ∧ rep = repOf T r
   | [.recvBitfield _] => ∃ bits chosen u, mstep m (.bitfield a bits chosen) = .ok m' .none ∧ rep = .state u chosen.isSome
   | [.pieceDone] => ∃ chosen r, mstep m (.pieceDone a chosen) = .ok m' r ∧ rep = repOf T r
   | [.pieceCancel] => ∃ chosen r, mstep m (.pieceCancel a chosen) = .ok m' r ∧ rep = repOf T r
